@@ -60,7 +60,22 @@ def origin_desc(fn, operand):
     if o[0] == "place" and o[1]:
         sd = fn.single_def(o[1][0])
         if sd is not None and sd[2][0] == "call":
-            return "proj-of-call:" + (sd[2][1]["f"].get("name") or "?")
+            # see through Option / Result combinators: `m.get(k).and_then(Option::as_ref)` and a `match m.get(k)` name the same source
+            t = sd[2][1]
+            for _ in range(6):
+                nm = t["f"].get("name") or "?"
+                if re.search(r"^std::(option::Option|result::Result)::<.*>::(and_then|as_ref|as_mut|map|copied|cloned|ok|filter|flatten|as_deref)$", nm) and t["args"]:
+                    src = fn.origin(t["args"][0])
+                    if src[0] == "call":
+                        t = src[1]
+                        continue
+                    if src[0] == "place" and src[1]:
+                        sd2 = fn.single_def(src[1][0])
+                        if sd2 is not None and sd2[2][0] == "call":
+                            t = sd2[2][1]
+                            continue
+                break
+            return "proj-of-call:" + (t["f"].get("name") or "?")
         return "place"
     if o[0] == "param":
         return "param%d%s" % (o[1], ("." + ".".join(p.split(":")[-1] or p for p in o[2])) if o[2] else "")
@@ -242,6 +257,10 @@ def const_index_guarded(fn, site, t, k):
             good = (op == "Eq" and n > k) or (op == "Gt" and n >= k) or (op == "Ge" and n > k)
             if good and edge_dominates(fn, (cand, bs[1]), site.bi):
                 return "constant index %d on the true edge of len() %s %d" % (k, {"Eq": "==", "Gt": ">", "Ge": ">="}[op], n)
+            # the negated forms, taken on their false edge: `len() != n || ..v[k]`, `if len() < n { return }`
+            goodn = (op == "Ne" and n > k) or (op == "Le" and n >= k) or (op == "Lt" and n > k)
+            if goodn and edge_dominates(fn, (cand, bs[2]), site.bi):
+                return "constant index %d on the false edge of len() %s %d" % (k, {"Ne": "!=", "Le": "<=", "Lt": "<"}[op], n)
     return None
 
 
@@ -268,6 +287,26 @@ def str_index_guarded(fn, site, t):
     return None
 
 
+def root_local_ty(fn, operand):
+    """type of the local an operand ultimately refers to (through plain refs / reborrows / moves)"""
+    cur = operand
+    for _ in range(8):
+        if cur[0] == "k":
+            return None
+        place = cur[1]
+        sd = fn.single_def(place[0])
+        if 1 <= place[0] <= fn.argc or sd is None:
+            return fn.locals[place[0]]["ty"]
+        rv = sd[2]
+        if rv[0] == "ref" or rv[0] == "rawptr":
+            cur = ["c", rv[2]]
+        elif rv[0] == "use" and rv[1][0] != "k":
+            cur = rv[1]
+        else:
+            return fn.locals[place[0]]["ty"]
+    return None
+
+
 def classify(facts, sites, table, validators=(), regex_ok=True):
     """sets site.status in {auto, validator, audited, unaudited}.  `table`: {key: (max_count, reason)}.
     `validators`: regexes on the asserted expression that are discharged by a language obligation."""
@@ -283,6 +322,12 @@ def classify(facts, sites, table, validators=(), regex_ok=True):
                 s.status, s.reason = "auto", g
                 continue
             o = fn.origin(t["args"][0])
+            if o[0] == "call" and call_name_matches(o[1], r"fmt::Write>?::write_fmt$|fmt::Write>?::write_str$|fmt::Write>?::write_char$") and o[1]["args"] \
+                    and o[1]["args"][0][0] != "k":
+                r0 = root_local_ty(fn, o[1]["args"][0])
+                if r0 and re.match(r"^(&mut )*(std::string::String|alloc::string::String)$", r0):
+                    s.status, s.reason = "auto", "fmt::Write for String never fails (`write!` into a String)"
+                    continue
             if o[0] == "call" and call_name_matches(o[1], r"^regex::Regex(Set)?::new$|regex::Regex::new$|regex::RegexSet::new$"):
                 s.status, s.reason = "auto", "Regex::new(<constant>) — the constant is compiled by E2 on every run"
                 continue
